@@ -14,7 +14,7 @@ RULE = ("EXHAUSTIVE over all ordered pairs of configured units (33 x 33, same ki
         "rational factor computed from config.json by an independent reading (rel 1e-9) and against the textbook definitions "
         "(1 in = 25.4 mm, 12 in = 1 ft, 3 ft = 1 yd, 1760 yd = 1 mile, 16 oz = 1 lb, 14 lb = 1 stone, 1 oz = 28.3495231 g, 8 bit = 1 byte, "
         "1024 multiples, decimal prefixes); round trips through a variable, A->B->C vs A->C, + - * / between quantities and numbers, "
-        "different kinds (must not convert, must not add); 4 separator conventions; non-trivial = pair of distinct units; distinct = "
+        "different kinds (must not convert, must not add); 8 separator configurations ((',' '.'), ('.' ','), ('.' ''), (',' ''), and the thousands separators ' ', \"'\", '_' that only printing uses; quick: all pairs under the default, a 12% sample of pairs under each other one); non-trivial = pair of distinct units; distinct = "
         "distinct (convention, line)")
 ASSUMPTIONS = ["`execute_code` (text substitution + tokenizer + parser + interpreter) multiplies by the factor its code denotes: hypothesis "
                "ExecIsMult of the theorems, decided here bit-for-bit (model executeCode over doubles vs implementation) and against exact rationals",
@@ -109,13 +109,16 @@ def run(ctx, model_ok):
         if key in TEXTBOOK and Fraction(TEXTBOOK[key]) != u["base"]:
             ctx.oracle_fail({"class": "definition:" + key, "what": f"config.json defines 1 {key} = {u['base']} base units, the standard definition is {TEXTBOOK[key]}",
                              "ops": [{"op": "exec", "lang": "en", "text": f"1 {key} to {units[0]['names'][0]}"}]})
-    convs = [(",", ".")] if ctx.quick() else [(",", "."), (".", ","), (".", ""), (",", "")]
+    # thousands separators the literal syntax does not know (' ', "'", '_') are settable too: they only ever appear in printed results
+    convs = [(",", "."), (".", ","), (".", ""), (",", ""), (",", " "), (".", "'"), (",", "_"), (".", " ")]
     cases = []   # (dec, thou, text, checker kind, data)
-    for (dec, thou) in convs:
+    for ci, (dec, thou) in enumerate(convs):
         for a in units:
             for b in units:
+                if ctx.quick() and ci > 0 and rng.random() > 0.12:
+                    continue
                 amts = AMOUNTS if (not ctx.quick() or a is b) else rng.sample(AMOUNTS, 3)
-                amts = list(amts) + [O.numclass(rng)]
+                amts = list(amts) + [O.numclass(rng), str(rng.randint(1000, 10 ** rng.randint(4, 9)))]
                 for amt in (amts if a["kind"] == b["kind"] else amts[:2]):
                     sw = rng.choice(a["words"])
                     tn = rng.choice(b["names"])
